@@ -403,3 +403,150 @@ def burst_after_drop(enc, drop_packets=1, calls=3):
         return b''.join(got), {k: type(v).__name__ for k, v in p.lost.items()}
     finally:
         p.stop()
+
+
+def run_asym_session(role, asym, payloads, kw=None):
+    """A session between a real endpoint (`role` = the side under test) and a
+    raw peer that negotiates DIFFERENT algorithms per direction (asym: see
+    rawpeer._RawMixin.asym).  The raw peer authenticates with "none", opens
+    a session, execs, sends each payload and reads the echo.  Returns the
+    same dict as run_session."""
+    from asyncssh.packet import Boolean, String, UInt32
+    from harness import rawpeer
+    loop = new_loop()
+    rec = Recorder()
+    _verif.set_sink(rec.sink)
+    out = {'rec': rec, 'outcome': None, 'echoed': [], 'lost': {}}
+    del SRV_RX[:]
+    del NoAuth.lost[:]
+    del _Cli.lost[:]
+    allcmp = ['none', 'zlib', 'zlib@openssh.com']
+
+    def on_connect(tr, peer):
+        tr.filter = rec.tap
+        peer.filter = rec.tap
+
+    loop.net.on_connect = on_connect
+    res = {}
+    echoed = bytearray()
+
+    async def go_server_under_test():
+        skw = dict(server_factory=NoAuth, server_host_keys=[hostkey()],
+                   process_factory=_echo, encoding=None,
+                   compression_algs=allcmp)
+        skw.update(kw or {})
+        res['acc'] = await asyncssh.listen('127.0.0.1', 2222, **skw)
+        res['raw'] = await rawpeer.raw_connect('127.0.0.1', 2222, asym=asym,
+                                               compression_algs=allcmp,
+                                               **(kw or {}))
+
+    def script_client():
+        raw = res['raw']
+        loop.run_until_idle()
+        raw.take()
+
+        def send(t, b):
+            loop.run_callback(raw.raw_send, t, b)
+            return raw.take()
+        got = send(50, rawpeer.userauth_request('u', 'none'))
+        if 52 not in [t for t, _ in got]:
+            return f'no USERAUTH_SUCCESS: {[t for t, _ in got]}'
+        got = send(90, rawpeer.session_open(chan=5, window=1 << 24))
+        conf = [p for t, p in got if t == 91]
+        if not conf:
+            return f'no open confirmation: {[t for t, _ in got]}'
+        c = int.from_bytes(conf[0][5:9], 'big')
+        send(98, UInt32(c) + String(b'exec') + Boolean(True) + String(b'x'))
+        for p in payloads:
+            data = b''
+            for t, pl in send(94, UInt32(c) + String(p)) if p else []:
+                if t == 94:
+                    n = int.from_bytes(pl[5:9], 'big')
+                    data += pl[9:9 + n]
+            out['echoed'].append(data)
+        send(96, UInt32(c))
+        loop.run_until_idle()
+        return None
+
+    async def go_client_under_test():
+        st = {}
+
+        def on_conn(conn):
+            res['raw'] = conn
+
+            def on_packet(t, payload):
+                if t == 5:
+                    conn.raw_send(6, String(b'ssh-userauth'))
+                elif t == 50:
+                    conn.raw_send(52, b'')
+                elif t == 90:
+                    st['c'] = int.from_bytes(payload[12:16], 'big')
+                    conn.raw_send(91, UInt32(st['c']) + UInt32(3) +
+                                  UInt32(1 << 24) + UInt32(1 << 15))
+                elif t == 98:
+                    conn.raw_send(99, UInt32(st['c']))
+                elif t == 94:
+                    n = int.from_bytes(payload[5:9], 'big')
+                    conn.raw_send(94, UInt32(st['c']) +
+                                  String(payload[9:9 + n]))
+                elif t == 96:
+                    conn.raw_send(96, UInt32(st['c']))
+                    conn.raw_send(98, UInt32(st['c']) + String(b'exit-status')
+                                  + Boolean(False) + UInt32(0))
+                    conn.raw_send(97, UInt32(st['c']))
+            conn.on_packet = on_packet
+
+        res['acc'] = await rawpeer.raw_listen(
+            '127.0.0.1', 2222, on_conn, asym=asym,
+            server_host_keys=[hostkey()], compression_algs=allcmp,
+            **(kw or {}))
+        ckw = dict(known_hosts=None, config=None, client_keys=None,
+                   username='u', client_factory=_Cli,
+                   compression_algs=allcmp)
+        ckw.update(kw or {})
+        conn = await asyncssh.connect('127.0.0.1', 2222, **ckw)
+        res['conn'] = conn
+        proc = await conn.create_process('x', encoding=None)
+        for p in payloads:
+            proc.stdin.write(p)
+            got = await proc.stdout.readexactly(len(p)) if p else b''
+            out['echoed'].append(got)
+        proc.stdin.write_eof()
+        await proc.wait()
+        conn.close()
+        await conn.wait_closed()
+
+    try:
+        if role == 's':
+            loop.run_until_complete(go_server_under_test())
+            err = script_client()
+            out['outcome'] = 'ok' if err is None else 'error:' + err
+        else:
+            loop.run_until_complete(go_client_under_test())
+            out['outcome'] = 'ok'
+    except Deadlock:
+        out['outcome'] = 'stall'
+    except (asyncssh.Error, OSError) as exc:
+        out['outcome'] = 'error:' + type(exc).__name__
+        out['exc'] = exc
+    try:
+        loop.run_until_idle()
+    except BaseException:               # pylint: disable=broad-except
+        pass
+    out['srv_rx'] = b''.join(SRV_RX)
+    out['lost'] = {'s': list(NoAuth.lost), 'c': list(_Cli.lost)}
+    out['loop_exceptions'] = [str(c.get('exception') or c.get('message'))
+                              for c in loop.exceptions]
+    try:
+        if 'conn' in res:
+            res['conn'].abort()
+        if 'raw' in res:
+            res['raw'].abort()
+        if 'acc' in res:
+            res['acc'].close()
+        loop.run_until_idle()
+    except BaseException:               # pylint: disable=broad-except
+        pass
+    _verif.set_sink(None)
+    close_loop(loop)
+    return out
